@@ -18,7 +18,7 @@ Fixpoint max_seg (ops : list fop) : nat :=
   | o :: r =>
     let s := match o with
              | ColWrite s | BsuAppend s | SstWrite s | SstRename s | SfmTmpTrunc s | SfmTmpWrite s _
-             | SfmRename s | SfmTruncate s | SfmWriteInPlace s _ | SegmetaAppend s | PqmrWrite s => s end in
+             | SfmRename s | SfmTruncate s | SfmWriteInPlace s _ | SfmUnlink s | SegmetaAppend s | PqmrWrite s => s end in
     Nat.max s (max_seg r)
   end.
 
@@ -38,7 +38,7 @@ Definition fop_eqb (a b : fop) : bool :=
   match a, b with
   | ColWrite s, ColWrite t | BsuAppend s, BsuAppend t | SstWrite s, SstWrite t | SstRename s, SstRename t
   | SfmTmpTrunc s, SfmTmpTrunc t | SfmRename s, SfmRename t | SfmTruncate s, SfmTruncate t
-  | SegmetaAppend s, SegmetaAppend t | PqmrWrite s, PqmrWrite t => Nat.eqb s t
+  | SegmetaAppend s, SegmetaAppend t | PqmrWrite s, PqmrWrite t | SfmUnlink s, SfmUnlink t => Nat.eqb s t
   | SfmTmpWrite s n, SfmTmpWrite t m | SfmWriteInPlace s n, SfmWriteInPlace t m => Nat.eqb s t && Nat.eqb n m
   | _, _ => false
   end.
